@@ -266,14 +266,19 @@ fn write_keys_map_to_disk(keys: HashMap<String, u64>) {
     let keys_file_name = get_keys_map_file_name();
     log::debug!("Will write the keys {} from disk", keys_file_name);
 
+    // Write a new file and rename it over the old one, a process that dies half way must not
+    // leave a partially overwritten map behind (it would not deserialize at the next start)
+    let tmp_file_name = format!("{}.tmp", keys_file_name);
     let mut keys_file = OpenOptions::new()
         .create(true)
         .write(true)
-        .open(keys_file_name)
+        .truncate(true)
+        .open(&tmp_file_name)
         .unwrap();
     #[cfg(nundb_verif)]
     crate::verif_hooks::record_key_order(keys.iter().map(|(k, v)| format!("{}={}", k, v)).collect());
     bincode::serialize_into(&mut keys_file, &keys.clone()).unwrap();
+    fs::rename(&tmp_file_name, &keys_file_name).unwrap();
 }
 
 fn get_invalidate_file_name() -> String {
